@@ -55,16 +55,26 @@ def check_sync(ctx, case):
     ths = scared.traces.read_ths_from_ram(samples=samples, plaintext=plaintext, idx=np.arange(n, dtype='uint32').reshape(n, 1))
     d = tempfile.mkdtemp(dir=_tmpdir())
     fname = os.path.join(d, 'out.ets')
+    pre_content = None
     if case['preexisting']:
-        with open(fname, 'wb') as f:
-            f.write(b'')
-        os.remove(fname)
+        # the output file already exists from an earlier synchronization (other content, other number of traces)
+        m0 = min(n, 1 + int(case['preexisting']) % 3)
+        pre_ths = scared.traces.read_ths_from_ram(samples=(samples[:m0].astype('float64') + 7).astype(samples.dtype), plaintext=plaintext[:m0],
+                                                  idx=np.arange(m0, dtype='uint32').reshape(m0, 1))
+        with warnings.catch_warnings():
+            warnings.simplefilter('ignore')
+            first = scared.Synchronizer(pre_ths, fname, lambda trace_object: trace_object.samples[:].astype('float32') * 2)
+            o0 = first.run()
+            pre_content = np.array(o0.samples[:])
+            o0.close()
     output = Path(fname) if case['as_path'] else fname
     calls = []
+    in_check = [False]
 
     def fn(trace_object, scale):
         i = int(trace_object.idx[0])
-        calls.append(i)
+        if not in_check[0]:
+            calls.append(i)
         a = pattern[i]
         if a == 'R':
             raise scared.ResynchroError('rejected')
@@ -78,10 +88,30 @@ def check_sync(ctx, case):
             warnings.simplefilter('ignore')
             sync = must(case, 'Synchronizer(...)', scared.Synchronizer, ths, output, fn, **({'overwrite': True} if case['overwrite'] else {}), scale=scale)
             acc = [i for i in range(n) if pattern[i] == 'A']
+            if case.get('check_before'):
+                # the documented dry run on randomly picked traces must not influence a later run()
+                import contextlib
+                import io
+                np.random.seed(int(case['check_before']) * 7919 + n)
+                in_check[0] = True
+                try:
+                    with contextlib.redirect_stdout(io.StringIO()):
+                        must(case, 'Synchronizer.check(nb_traces=%d)' % case['check_before'], sync.check, nb_traces=int(case['check_before']))
+                finally:
+                    in_check[0] = False
             out = None
             try:
                 out = sync.run()
             except Exception as e:
+                if pre_content is not None and not case['overwrite']:
+                    # refusing to touch an existing file is a clean rejection: the file must then still hold the earlier content only
+                    back = scared.traces.read_ths_from_ets_file(fname)
+                    same = back.samples[:].shape == pre_content.shape and np.array_equal(back.samples[:], pre_content)
+                    back.close()
+                    if not same:
+                        raise Violation('run() refused the existing output file (%s) but its content changed' % type(e).__name__, case)
+                    ctx.case(case, True, ['preexisting_output_refused'])
+                    return
                 if acc:
                     raise Violation('run() raised %s: %s although %d trace(s) were accepted' % (type(e).__name__, str(e)[:120], len(acc)), case)
         if calls != list(range(n)):
@@ -122,7 +152,7 @@ def check_sync(ctx, case):
              ['n:%s' % ('<=6' if n <= 6 else '>6'), 'all_rejected' if not acc else ('none_rejected' if rej == 0 else 'mixed'),
               'first_rejected' if pattern[0] != 'A' else 'first_accepted', 'last_rejected' if pattern[-1] != 'A' else 'last_accepted',
               'failure_run>=16' if runs >= 16 else 'failure_run>=8' if runs >= 8 else 'failure_run<8', 'path' if case['as_path'] else 'str',
-              'len_differs' if out_len != samples.shape[1] else 'len_same'])
+              'len_differs' if out_len != samples.shape[1] else 'len_same'] + (['check_before_run'] if case.get('check_before') else []) + (['preexisting_output_file'] if case['preexisting'] else []))
 
 
 def replay(ctx, case):
@@ -135,7 +165,8 @@ def _mk(g, pattern, out_len=None):
     return {'kind': 'sync', 'samples': g.integers(0, 256, size=(n, L)).astype(['uint8', 'int16', 'float32'][int(g.integers(3))]),
             'plaintext': g.integers(0, 256, size=(n, 4)).astype('uint8'), 'pattern': list(pattern),
             'out_len': int(g.integers(1, 9)) if out_len is None else out_len, 'scale': float(g.integers(1, 4)),
-            'as_path': bool(g.integers(2)), 'overwrite': bool(g.integers(2)), 'preexisting': False}
+            'as_path': bool(g.integers(2)), 'overwrite': bool(g.integers(2)), 'preexisting': int(g.integers(1, 4)) if g.integers(5) == 0 else 0,
+            'check_before': int(g.integers(1, 6)) if g.integers(4) == 0 else 0}
 
 
 def unit_enum(ctx, nmax, shard, nshards):
@@ -171,7 +202,8 @@ def sync_cases(draw):
     plaintext = draw(hnp.arrays('uint8', (n, 4), elements=st.integers(0, 255)))
     return {'kind': 'sync', 'samples': samples, 'plaintext': plaintext, 'pattern': pattern,
             'out_len': draw(st.one_of(st.just(L), st.integers(1, 9))), 'scale': float(draw(st.integers(1, 3))),
-            'as_path': draw(st.booleans()), 'overwrite': draw(st.booleans()), 'preexisting': False}
+            'as_path': draw(st.booleans()), 'overwrite': draw(st.booleans()), 'preexisting': draw(st.sampled_from([0, 0, 0, 1, 2])),
+            'check_before': draw(st.sampled_from([0, 0, 0, 1, 3, 7]))}
 
 
 def unit_generated(ctx, n):
